@@ -13,7 +13,7 @@ TInit == SqInit /\ l = 1
 
 \* helpers that do not exist for a kind are logged as the value they would have (the harness copies size/at)
 SameObs(o, q) == LET e == Obs(q) IN
-                 /\ o.first = e.first /\ o.atrev = e.atrev /\ o.size = e.size /\ o.empty = e.empty /\ o.at = e.at /\ o.atmax = e.atmax /\ o.huge = e.huge /\ o.iter = e.iter /\ o.riter = e.riter /\ o.post = e.post /\ o.rpost = e.rpost /\ o.eqd = e.eqd /\ o.eqo = e.eqo /\ o.bend = e.bend
+                 /\ o.first = e.first /\ o.atrev = e.atrev /\ o.size = e.size /\ o.empty = e.empty /\ o.at = e.at /\ o.atmax = e.atmax /\ o.huge = e.huge /\ o.iter = e.iter /\ o.riter = e.riter /\ o.post = e.post /\ o.rpost = e.rpost /\ o.fwalk = e.fwalk /\ o.rwalk = e.rwalk /\ o.eqd = e.eqd /\ o.eqo = e.eqo /\ o.bend = e.bend
                  /\ o.steps = e.steps /\ o.hsize = e.hsize /\ o.hat = e.hat
 
 TNew == Ev.e = "new" /\ s' = <<>> /\ sqlast' = [op |-> "init", r |-> 0]
